@@ -156,6 +156,7 @@ def scale_nonshear(spec, t, v, ei, ej, longitudinal):
     g = numpy.abs(spec.gamma(v))
     dg = numpy.abs(spec.vdgdv(v))
     wq = spec.weights / spec.weights.sum()
+    ei, ej = numpy.abs(numpy.asarray(ei, dtype=float)), numpy.abs(numpy.asarray(ej, dtype=float))     # magnitudes only: fractions may be negative (C02)
     pre = (5 if longitudinal else 15) * ei * ej
     m = spec.mask
     per_mode = (g ** 2 + dg) / pre[:, None, None] + (g / (3 * ei)[:, None, None] if longitudinal else 0)
